@@ -1,5 +1,5 @@
 # replay of a bounded stand-in violation (C06): re-run native/c06_measure.py
 import sys
-print('post-selected heterodyne on mode 0 of 3: gaussian and bosonic conditional states differ (max 0.232)')
+print('Catstate(1.2, 0.0, p=0.0); BSgate; homodyne(phi=1.57) of q[1] post-selected on -1.3: bosonic leaves q[0] with (<n>, <x>, <x_0.8>, <p>, <x^2>) = [0.7001, -0.959, -0.6681, -0.0, 3.8402], the conditional state has [0.8788, -1.0796, -0.5266, 0.3144, 4.1975]')
 print('REPLAY-VIOLATION')
 sys.exit(1)
